@@ -128,12 +128,14 @@ theorem drumLoop_perm {sel sel' : List Note} (hp : sel.Perm sel') (trackStart ga
 
 /-! ### chords -/
 
-/-- chord symbols stored on one step *before* `startStep` carry the same text.  (`from_quantized_sequence` keeps the
-last one in sorted — for ties: storage — order as the chord in force at `start_step`; two different symbols on one step
-inside `[start_step, end_step)` raise `CoincidentChordsError` in either order, so no condition is needed there.) -/
+/-- chord symbols stored with one (step, time) *before* `startStep` carry the same text.  (`from_quantized_sequence`
+sorts by `(quantized_step, time)` and keeps the last one in sorted — for ties in both: storage — order as the chord in
+force at `start_step`; chords on one step with different times are ordered by time whatever the storage order; two
+different symbols on one step inside `[start_step, end_step)` raise `CoincidentChordsError` in either order, so no
+condition is needed there.) -/
 def ChordTiesAgree (s : NoteSeq) (startStep : Int) : Prop :=
   ∀ a ∈ s.texts, ∀ b ∈ s.texts, a.kind = Gen.CHORD_SYMBOL → b.kind = Gen.CHORD_SYMBOL →
-    a.qstep = b.qstep → a.qstep < startStep → a.text = b.text
+    a.qstep = b.qstep → a.time = b.time → a.qstep < startStep → a.text = b.text
 
 instance (s : NoteSeq) (startStep : Int) : Decidable (ChordTiesAgree s startStep) := by
   unfold ChordTiesAgree; infer_instance
@@ -151,24 +153,25 @@ theorem chordsCoincident_perm {s s' : NoteSeq} (h : NSPerm s s') (start end_ : I
   · rintro ⟨a, ha, b, hb, r⟩
     exact ⟨a, h.texts.mem_iff.mpr ha, b, h.texts.mem_iff.mpr hb, r⟩
 
-/-- the chord in force at step `t` does not depend on storage order when chord symbols sharing a step `≤ t` agree -/
+/-- the chord in force at step `t` does not depend on storage order when chord symbols sharing a (step, time) with
+step `≤ t` agree -/
 theorem chordAt_perm (d : String) {s s' : NoteSeq} (h : NSPerm s s') (t : Int)
     (hties : ∀ a ∈ s.texts, ∀ b ∈ s.texts, a.kind = Gen.CHORD_SYMBOL → b.kind = Gen.CHORD_SYMBOL →
-      a.qstep = b.qstep → a.qstep ≤ t → a.text = b.text) :
+      a.qstep = b.qstep → a.time = b.time → a.qstep ≤ t → a.text = b.text) :
     chordAt d (chordAnns s) t = chordAt d (chordAnns s') t := by
-  let pr : TextAnn → Int × String := fun a => (a.qstep, a.text)
+  let pr : TextAnn → Int × Rat × String := fun a => (a.qstep, a.time, a.text)
   have key : ((chordAnns s).filter (fun c => decide (c.qstep ≤ t))).map pr =
       ((chordAnns s').filter (fun c => decide (c.qstep ≤ t))).map pr := by
     have hpw : ∀ u : NoteSeq, (((chordAnns u).filter (fun c => decide (c.qstep ≤ t))).map pr).Pairwise
-        (fun x y => x.1 ≤ y.1) := by
+        (fun x y => x.1 < y.1 ∨ (x.1 = y.1 ∧ x.2.1 ≤ y.2.1)) := by
       intro u
       rw [List.pairwise_map]
-      exact (sortByInt_pairwise _ _).filter _
+      exact (chordAnns_sorted u).filter _
     have hperm : (((chordAnns s).filter (fun c => decide (c.qstep ≤ t))).map pr).Perm
         (((chordAnns s').filter (fun c => decide (c.qstep ≤ t))).map pr) := by
       apply List.Perm.map
       apply List.Perm.filter
-      unfold chordAnns sortByInt
+      unfold chordAnns
       exact ((List.mergeSort_perm _ _).trans (h.texts.filter _)).trans (List.mergeSort_perm _ _).symm
     refine List.Perm.eq_of_pairwise ?_ (hpw s) (hpw s') hperm
     intro x y hx hy hxy hyx
@@ -176,9 +179,16 @@ theorem chordAt_perm (d : String) {s s' : NoteSeq} (h : NSPerm s s') (t : Int)
     obtain ⟨a, ⟨ha, hat⟩, rfl⟩ := hx
     obtain ⟨b, ⟨hb, _⟩, rfl⟩ := hy
     rw [mem_chordAnns] at ha hb
-    have hq : a.qstep = b.qstep := by simp only [pr] at hxy hyx; omega
-    have := hties a ha.1 b (h.texts.mem_iff.mpr hb.1) ha.2 hb.2 hq hat
-    simp only [pr, hq, this]
+    simp only [pr] at hxy hyx
+    have hq : a.qstep = b.qstep := by omega
+    have htm : a.time = b.time := by
+      rcases hxy with hxy | ⟨_, hxy⟩
+      · omega
+      · rcases hyx with hyx | ⟨_, hyx⟩
+        · omega
+        · exact Rat.le_antisymm hxy hyx
+    have := hties a ha.1 b (h.texts.mem_iff.mpr hb.1) ha.2 hb.2 hq htm hat
+    simp only [pr, hq, htm, this]
   unfold chordAt
   have hl := congrArg List.getLast? key
   rw [List.getLast?_map, List.getLast?_map] at hl
@@ -193,7 +203,7 @@ theorem chordAt_perm (d : String) {s s' : NoteSeq} (h : NSPerm s s') (t : Int)
     | some b =>
       rw [h1, h2] at hl
       simp only [Option.map_some, Option.some.injEq] at hl
-      exact (congrArg Prod.snd hl)
+      exact (congrArg (fun x => x.2.2) hl)
 
 /-- the loop over the chords when `end_step ≤ start_step`: no event is ever written -/
 theorem chordLoop_degenerate (start end_ : Int) (hse : end_ ≤ start) :
@@ -230,25 +240,45 @@ theorem chords_degenerate (s : NoteSeq) (start end_ spb : Int) (hspb : stepsPerB
 def melKey (fd : Bool) (n : Note) : Int × Int × Int × Bool × Bool :=
   (n.qs, n.pitch, n.qe, fd && n.isDrum, decide (n.velocity = 0))
 
-def melKeyLe (x y : Int × Int × Int × Bool × Bool) : Bool :=
-  decide (x.1 < y.1) || (x.1 == y.1 && decide (y.2.1 ≤ x.2.1))
+/-- … together with the third component of the sort key, the unquantized start time (only the sort reads it) -/
+def melSortKey (fd : Bool) (n : Note) : Rat × Int × Int × Int × Bool × Bool := (n.start, melKey fd n)
 
-theorem melLe_key (fd : Bool) (a b : Note) : melLe a b = melKeyLe (melKey fd a) (melKey fd b) := rfl
+def melKeyLe (x y : Rat × Int × Int × Int × Bool × Bool) : Bool :=
+  decide (x.2.1 < y.2.1) || (x.2.1 == y.2.1 &&
+    (decide (y.2.2.1 < x.2.2.1) || (y.2.2.1 == x.2.2.1 && decide (x.1 ≤ y.1))))
 
-theorem melKeyLe_trans (a b c : Int × Int × Int × Bool × Bool) (h1 : melKeyLe a b = true)
+theorem melLe_key (fd : Bool) (a b : Note) : melLe a b = melKeyLe (melSortKey fd a) (melSortKey fd b) := rfl
+
+theorem melKeyLe_trans (a b c : Rat × Int × Int × Int × Bool × Bool) (h1 : melKeyLe a b = true)
     (h2 : melKeyLe b c = true) : melKeyLe a c = true := by
   simp only [melKeyLe, Bool.or_eq_true, Bool.and_eq_true, decide_eq_true_eq, beq_iff_eq] at *
-  omega
+  rcases h1 with h1 | ⟨h1, h1' | ⟨h1', h1''⟩⟩ <;> rcases h2 with h2 | ⟨h2, h2' | ⟨h2', h2''⟩⟩
+  all_goals first
+    | (left; omega)
+    | (right; refine ⟨by omega, Or.inl (by omega)⟩)
+    | (right; exact ⟨by omega, Or.inr ⟨by omega, Rat.le_trans h1'' h2''⟩⟩)
 
-theorem melKeyLe_total (a b : Int × Int × Int × Bool × Bool) : (melKeyLe a b || melKeyLe b a) = true := by
+theorem melKeyLe_total (a b : Rat × Int × Int × Int × Bool × Bool) : (melKeyLe a b || melKeyLe b a) = true := by
   simp only [melKeyLe, Bool.or_eq_true, Bool.and_eq_true, decide_eq_true_eq, beq_iff_eq]
-  omega
+  by_cases h1 : a.2.1 < b.2.1
+  · exact Or.inl (Or.inl h1)
+  · by_cases h2 : b.2.1 < a.2.1
+    · exact Or.inr (Or.inl h2)
+    · by_cases h3 : b.2.2.1 < a.2.2.1
+      · exact Or.inl (Or.inr ⟨by omega, Or.inl h3⟩)
+      · by_cases h4 : a.2.2.1 < b.2.2.1
+        · exact Or.inr (Or.inr ⟨by omega, Or.inl h4⟩)
+        · rcases Rat.le_total (a := a.1) (b := b.1) with h | h
+          · exact Or.inl (Or.inr ⟨by omega, Or.inr ⟨by omega, h⟩⟩)
+          · exact Or.inr (Or.inr ⟨by omega, Or.inr ⟨by omega, h⟩⟩)
 
-/-- selected notes that share start step and pitch also share the end step.  (With `ignore_polyphonic_notes` the
-first of them in sorted — for ties: storage — order is kept and the others are dropped, so their end steps matter.) -/
+/-- selected notes that share start step, pitch and (unquantized) start time also share the end step.  (The sort key is
+`(quantized_start_step, -pitch, start_time)`; with `ignore_polyphonic_notes` the first note of an onset in sorted — for
+ties in all three: storage — order is kept and the others are dropped, so their end steps matter.  Notes of one pitch on
+one step with different start times are ordered by start time whatever the storage order.) -/
 def MelTiesAgree (s : NoteSeq) (searchStart inst : Int) (filterDrums : Bool) : Prop :=
   ∀ a ∈ s.notes, ∀ b ∈ s.notes, melSel searchStart inst filterDrums a = true →
-    melSel searchStart inst filterDrums b = true → a.qs = b.qs → a.pitch = b.pitch → a.qe = b.qe
+    melSel searchStart inst filterDrums b = true → a.qs = b.qs → a.pitch = b.pitch → a.start = b.start → a.qe = b.qe
 
 instance (s : NoteSeq) (ss inst : Int) (fd : Bool) : Decidable (MelTiesAgree s ss inst fd) := by
   unfold MelTiesAgree; infer_instance
@@ -285,17 +315,30 @@ theorem melSorted_key {s s' : NoteSeq} (h : NSPerm s s') {ss inst : Int} {fd : B
     (ht : MelTiesAgree s ss inst fd) :
     ((s.notes.filter (melSel ss inst fd)).mergeSort melLe).map (melKey fd) =
       ((s'.notes.filter (melSel ss inst fd)).mergeSort melLe).map (melKey fd) := by
-  apply map_mergeSort_perm (le' := melKeyLe) (melLe_key fd) melKeyLe_trans melKeyLe_total (h.notes.filter _)
-  intro a ha b hb hab hba
-  rw [List.mem_filter] at ha hb
-  have hq : a.qs = b.qs ∧ a.pitch = b.pitch := by
-    simp only [melLe, Bool.or_eq_true, Bool.and_eq_true, decide_eq_true_eq, beq_iff_eq] at hab hba
-    omega
-  have he := ht a ha.1 b hb.1 ha.2 hb.2 hq.1 hq.2
-  have sa := ha.2
-  have sb := hb.2
-  simp only [melSel, Bool.and_eq_true, beq_iff_eq, decide_eq_true_eq, Bool.not_eq_true', bne_iff_ne, ne_eq] at sa sb
-  simp only [melKey, hq.1, hq.2, he, sa.1.2, sb.1.2, sa.2, sb.2]
+  have hkey : ((s.notes.filter (melSel ss inst fd)).mergeSort melLe).map (melSortKey fd) =
+      ((s'.notes.filter (melSel ss inst fd)).mergeSort melLe).map (melSortKey fd) := by
+    apply map_mergeSort_perm (le' := melKeyLe) (melLe_key fd) melKeyLe_trans melKeyLe_total (h.notes.filter _)
+    intro a ha b hb hab hba
+    rw [List.mem_filter] at ha hb
+    rw [melLe_iff] at hab hba
+    unfold MelOrd at hab hba
+    have hq : a.qs = b.qs ∧ a.pitch = b.pitch := by
+      rcases hab with h1 | ⟨_, h1 | ⟨h1, _⟩⟩ <;> rcases hba with h2 | ⟨_, h2 | ⟨h2, _⟩⟩ <;> omega
+    have hst : a.start = b.start := by
+      rcases hab with h1 | ⟨_, h1 | ⟨_, h1⟩⟩
+      · omega
+      · omega
+      · rcases hba with h2 | ⟨_, h2 | ⟨_, h2⟩⟩
+        · omega
+        · omega
+        · exact Rat.le_antisymm h1 h2
+    have he := ht a ha.1 b hb.1 ha.2 hb.2 hq.1 hq.2 hst
+    have sa := ha.2
+    have sb := hb.2
+    simp only [melSel, Bool.and_eq_true, beq_iff_eq, decide_eq_true_eq, Bool.not_eq_true', bne_iff_ne, ne_eq] at sa sb
+    simp only [melSortKey, melKey, hq.1, hq.2, hst, he, sa.1.2, sb.1.2, sa.2, sb.2]
+  have := congrArg (List.map Prod.snd) hkey
+  simpa only [List.map_map, Function.comp_def, melSortKey] using this
 
 /-! ### performances -/
 
